@@ -2,6 +2,7 @@
 mod api;
 mod gen;
 mod interp;
+mod minimize;
 mod oracle;
 mod pay;
 mod raw;
@@ -40,6 +41,7 @@ struct BatchOut {
     determinism_rechecked: u64,
     determinism_mismatch: u64,
     pilots: u64,
+    minimise_candidates: u64,
 }
 
 #[derive(Serialize, Deserialize, Clone)]
@@ -116,9 +118,10 @@ fn coverage_keys(scn: &Scenario, cov: &mut BTreeMap<String, u64>) {
     *cov.entry(format!("strategy-{}", match scn.cfg.strategy { sched::Strategy::Random => "random".to_string(), sched::Strategy::Sticky(p) => format!("sticky{}", p), sched::Strategy::Pct(_, _) => "pct".to_string(), sched::Strategy::RunToBlock => "rtb".to_string() })).or_insert(0) += 1;
 }
 
-fn run_batch(prop: &str, seed: u64, start: u64, count: u64, replay_dir: &str, progress: Option<&str>, max_viol: usize) -> BatchOut {
+fn run_batch(prop: &str, seed: u64, start: u64, count: u64, replay_dir: &str, progress: Option<&str>, max_viol: usize, dump: Option<&str>) -> BatchOut {
     let mut out = BatchOut { prop: prop.to_string(), seed, start, count, ..Default::default() };
     let mut fps: HashSet<u64> = HashSet::new();
+    let mut dumpf = dump.map(|p| std::io::BufWriter::new(std::fs::File::create(p).expect("dump file")));
     if prop == "C07" && start == 0 {
         for (ty, got, exp) in typeprobe::owned_lockable_verdicts() {
             *out.coverage.entry("static_ownedlockable_verdicts".into()).or_insert(0) += 1;
@@ -161,7 +164,11 @@ fn run_batch(prop: &str, seed: u64, start: u64, count: u64, replay_dir: &str, pr
             _ => vec![base],
         };
         for (vi, scn) in variants.into_iter().enumerate() {
-            process_run(prop, seed, idx, vi as u64, run_seed, &scn, &mut out, &mut fps, replay_dir, max_viol);
+            let (fp, steps) = process_run(prop, seed, idx, vi as u64, run_seed, &scn, &mut out, &mut fps, replay_dir, max_viol);
+            if let Some(f) = dumpf.as_mut() {
+                use std::io::Write;
+                let _ = writeln!(f, "{} {} {:016x} {}", idx, vi, fp, steps);
+            }
         }
     }
     out.distinct_nontrivial = fps.len() as u64;
@@ -171,7 +178,7 @@ fn run_batch(prop: &str, seed: u64, start: u64, count: u64, replay_dir: &str, pr
 
 
 #[allow(clippy::too_many_arguments)]
-fn process_run(prop: &str, seed: u64, idx: u64, variant: u64, run_seed: u64, scn: &Scenario, out: &mut BatchOut, fps: &mut HashSet<u64>, replay_dir: &str, max_viol: usize) {
+fn process_run(prop: &str, seed: u64, idx: u64, variant: u64, run_seed: u64, scn: &Scenario, out: &mut BatchOut, fps: &mut HashSet<u64>, replay_dir: &str, max_viol: usize) -> (u64, u64) {
     let scn = scn.clone();
         let r = interp::run_scenario(&scn);
         out.runs += 1;
@@ -235,22 +242,29 @@ fn process_run(prop: &str, seed: u64, idx: u64, variant: u64, run_seed: u64, scn
                 } else {
                     ev.detail.clone()
                 };
-                let rf = ReplayFile {
-                    property: prop.to_string(),
-                    clause: format!("{:?}", ev.clause),
-                    detail: detail.clone(),
-                    verif_seed: seed,
-                    run_index: idx,
-                    run_seed,
-                    minimised: false,
-                    fingerprint: r.out.fp,
-                    scenario: scn2,
-                };
+                let clause = format!("{:?}", ev.clause);
                 let _ = std::fs::create_dir_all(replay_dir);
-                std::fs::write(&path, serde_json::to_string_pretty(&rf).unwrap()).expect("write replay");
+                let write = |p: &str, s: &Scenario, minimised: bool, d: &str, fp: u64| {
+                    let rf = ReplayFile { property: prop.to_string(), clause: clause.clone(), detail: d.to_string(), verif_seed: seed, run_index: idx, run_seed, minimised, fingerprint: fp, scenario: s.clone() };
+                    std::fs::write(p, serde_json::to_string_pretty(&rf).unwrap()).expect("write replay");
+                };
+                // minimise; keep the unminimised file next to it. If the minimised scenario does
+                // not reproduce on a re-run, report the original (deterministic by construction).
+                let m = minimize::minimize(&scn2, prop, &clause, 400);
+                out.minimise_candidates += m.candidates_tried as u64;
+                let check = interp::run_scenario(&m.scenario);
+                let still = check.out.events.iter().find(|e| oracle::properties_of(e, &m.scenario).contains(&prop) && format!("{:?}", e.clause) == clause);
+                match still {
+                    Some(e2) => {
+                        write(&format!("{}.orig", path), &scn2, false, &detail, r.out.fp);
+                        write(&path, &m.scenario, true, &e2.detail, check.out.fp);
+                    }
+                    None => write(&path, &scn2, false, &detail, r.out.fp),
+                }
                 out.violations.push(Viol { property: prop.to_string(), clause: format!("{:?}", ev.clause), run_seed, index: idx, detail, replay: path });
             }
         }
+    (r.out.fp, r.out.stats.steps)
 }
 
 fn main() {
@@ -265,7 +279,7 @@ fn main() {
             let count: u64 = get("--count").map(|s| s.parse().unwrap()).unwrap_or(1000);
             let dir = get("--replay-dir").unwrap_or_else(|| "replays".into());
             let max_viol: usize = get("--max-viol").map(|s| s.parse().unwrap()).unwrap_or(3);
-            let out = run_batch(&prop, seed, start, count, &dir, get("--progress").as_deref(), max_viol);
+            let out = run_batch(&prop, seed, start, count, &dir, get("--progress").as_deref(), max_viol, get("--dump").as_deref());
             let s = serde_json::to_string(&out).unwrap();
             match get("--out") {
                 Some(p) => std::fs::write(p, s).unwrap(),
